@@ -156,7 +156,8 @@ def _run_case(case):
     env = tracer.TableEnv(_r.Random(case["seed"]), serendipity=False)
     np.random.seed(case["seed"] % (2 ** 31))
     sch = sysrun.Schedule("random", rng=_r.Random(case["seed"])) if case.get("random_schedule") else sysrun.Schedule("fifo")
-    events, _dig, app = sysrun.run_traced(cfg, case["nsteps"], sch, env, events_meta=tmeta, catch_crash=True)
+    events, _dig, app = sysrun.run_traced(cfg, case["nsteps"], sch, env, events_meta=tmeta, catch_crash=True,
+                                          split=case.get("split"))
     err = next((e["error"] for e in events if e["ev"] == "Crash"), None)
     g = sysrun.group_constants(None, cfg, case["nsteps"], 1, events_meta=meta)
     g["dt"] = DT_SPEC
@@ -190,6 +191,11 @@ def make_cases(ctx: Ctx, rng):
             j = rng.randint(1, n)
             add(start, step, [{"kind": "impulse", "t0": j * step, "planned": True},
                               {"kind": "impulse", "t0": (j - 1) * step + 1, "planned": False, "target": 1}])
+            # the run is performed in two propagateTo calls that meet exactly at an event's epoch
+            j = rng.randint(1, n - 1)
+            add(start, step, [{"kind": "impulse", "t0": j * step, "planned": (si + j) % 2 == 0}], split=[j, n - j])
+            add(start, step, [{"kind": "addTarget", "t0": j * step}, {"kind": "impulse", "t0": j * step + 1, "planned": True}],
+                split=[j, n - j], random_schedule=True)
             # several impulses of the SAME target in one step: interior ones followed by one exactly on the step's end
             j = rng.randint(1, n)
             evs = [{"kind": "impulse", "t0": (j - 1) * step + 1, "planned": False},
